@@ -668,6 +668,22 @@ impl Check for C10 {
             };
             return Sc::ZstXo { len, lb_less: if g.chance(1, 4) { g.urange(1, 2) } else { 0 }, tuple: g.coin(), rng: RngSpec::swarm(g) };
         }
+        if g.chance(1, 2500) {
+            // exchange primitives on long genomes: segments of more than 2^16 genes, genes beyond index 2^16
+            let la = *g.pick(&[65_536usize, 65_537, 100_000, 131_073, 200_000]);
+            let lb = if g.chance(1, 5) { la - g.urange(1, 70_000).min(la) } else { la };
+            let start = if g.coin() { g.urange(0, 10) } else { g.usize_below(la) };
+            let end = match g.below(4) {
+                0 => la,
+                1 => la + g.urange(0, 2),
+                _ => g.urange(start.min(la), la),
+            };
+            return if g.chance(1, 4) {
+                Sc::PrimGene { la, lb, index: g.usize_below(la + 2), seed: g.next_u64() }
+            } else {
+                Sc::PrimSegment { la, lb, start, end, seed: g.next_u64() }
+            };
+        }
         let kind = if g.coin() { Kind::TwoPoint } else { Kind::Uniform };
         let container = *g.pick(&CONTAINERS);
         let la = match g.below(8) {
